@@ -49,6 +49,9 @@ checks["C08"] = dict(level="model_checking", text=MERGE_TEXT + "the driver write
 checks["C09"] = dict(level="model_checking", text=MERGE_TEXT + "every tree is loaded repeatedly in one process under GOMAXPROCS 1/2/4/16 and the canonical dump of the merged table (order, aliases, directories, deps, commands, include and global variables) must be identical across loads.",
    note=CASES_NOTE + " Determinism is observed over a finite number of repeated loads (8 quick / 60 thorough per tree).", ref="DESIGN.md 4.3, 5 (C09)", tech="TLC-enumerated include trees (Merge.tla) loaded repeatedly by the real reader; canonical dumps compared", engine="load")
 
+checks["C10"] = dict(level="model_checking", text="Vars.tla defines Value(cfg) (fold over the definition sites os < global/cli < include statement < included Taskfile < call < task with literal / template-of-lower / sh kinds) and EnvValue(cfg) (task env > task dotenv > global env > global dotenv, process environment first or last depending on the experiment). TLC enumerates every configuration as initial states with the expected value; each is one CLI run that prints {{.N}} / $E, for a task in the root file and in an included file.",
+   note=CASES_NOTE, ref="DESIGN.md 4.3, 5 (C10)", tech="TLA+ precedence specification enumerated by TLC (cases), each case replayed through the task CLI", engine="load")
+
 ALL = ["C%02d" % i for i in range(1, 21)]
 pending = {p: "check not built yet in this round (planned, see DESIGN.md section 5)" for p in ALL if p not in checks}
 
@@ -64,7 +67,7 @@ m = {
    "kind_free_text": "TLA+ executor model + property monitor; TLC model checking, trace validation, schedule-controlled replay into the real Executor"},
   {"name": "fp", "path": "specs/fp + harness/fpfam", "serves_properties": ["C04","C05","C12"],
    "kind_free_text": "TLA+ model of the up-to-date state machine + monitor; TLC model checking, history replay against the task CLI, TLC evaluation of observed histories"},
-  {"name": "load", "path": "specs/load + harness/loadfam", "serves_properties": ["C08","C09","C15"],
+  {"name": "load", "path": "specs/load + harness/loadfam", "serves_properties": ["C08","C09","C10","C15"],
    "kind_free_text": "TLA+ functional specifications (cases models) enumerated by TLC, compared with the real loader/resolver"},
   {"name": "cli", "path": "specs/cli + harness/clifam", "serves_properties": ["C19"], "kind_free_text": "TLA+ cases specification + CLI driver with argv-recording helper"},
   {"name": "out", "path": "specs/out + harness/outfam", "serves_properties": ["C17"], "kind_free_text": "TLA+ model of group/prefixed writers; blocking-sink replay"},
